@@ -7,6 +7,7 @@ import (
 	"sync"
 
 	"github.com/pip-services3-gox/pip-services3-expressions-gox/calculator"
+	"github.com/pip-services3-gox/pip-services3-expressions-gox/calculator/functions"
 	"github.com/pip-services3-gox/pip-services3-expressions-gox/calculator/variables"
 	"github.com/pip-services3-gox/pip-services3-expressions-gox/mustache"
 	"github.com/pip-services3-gox/pip-services3-expressions-gox/variants"
@@ -247,7 +248,24 @@ func runSeparateInstances(c *Ctx, goroutines int, exprs []string, tpls []string)
 		wg.Add(1)
 		go func(g int) {
 			defer wg.Done()
+			// each goroutine configures ITS calculator (a function of its own, one standard function removed): what it
+			// evaluates is not what another goroutine configured
+			own := calculator.NewExpressionCalculator()
+			own.DefaultFunctions().Add(functions.NewDelegatedFunction("Own", func(p []*variants.Variant, o variants.IVariantOperations) (*variants.Variant, error) {
+				return variants.VariantFromInteger(1000 + g), nil
+			}))
+			if g%2 == 1 {
+				own.DefaultFunctions().RemoveByName("Min")
+			}
 			for k := 0; k < 10; k++ {
+				own.SetExpression("Own() + Max(1, 2)")
+				if r, err := own.Evaluate(); err != nil || r.Type() != variants.Integer || r.AsInteger() != 1002+g {
+					errs[g] = fmt.Sprintf("goroutine %d: its own calculator, given a function Own() = %d, evaluates Own() + Max(1, 2) to %s", g, 1000+g, outcome(r, err))
+				}
+				own.SetExpression("Min(4, 3)")
+				if r, err := own.Evaluate(); g%2 == 0 && (err != nil || r.AsInteger() != 3) {
+					errs[g] = fmt.Sprintf("goroutine %d: its own calculator (standard functions untouched) evaluates Min(4, 3) to %s", g, outcome(r, err))
+				}
 				i := (g + k) % len(exprs)
 				out, _, _ := evalWith(exprs[i], "u", []binding{{"a", vInt(6)}, {"b", vInt(3)}})
 				if out != want[i] {
